@@ -18,7 +18,7 @@ pub fn prop() -> Prop {
         check,
         quick_runs: 16_000,
         both_profiles: false,
-        rule: "a run = a TCP script: traffic on a first connection, then a fault sequence of length 0-12 over {refuse (refused/timed out/unreachable), accept+close, accept+frames+close, accept+partial line (cut at any digit offset, often exactly 14) +reset/timeout/broken pipe, accept+junk bytes, EINTR}, then a healthy connection with fresh traffic; refusal pauses are simulated (5 s each) so some aircraft must survive the interruption and some must expire; -f subsets incl. filters that let nothing of a connection through; non-trivial = at least one fault connection and one frame on the final healthy connection; distinct = distinct scripts",
+        rule: "a run = a TCP script: traffic on a first connection, then a fault sequence of length 0-12 over {refuse (refused/timed out/unreachable), accept+close, accept+frames+close, accept+partial line (cut at any digit offset, often exactly 14) +reset/timeout/broken pipe, accept+junk bytes, EINTR}, then a healthy connection with fresh traffic; refusal pauses are simulated (5 s each) so some aircraft must survive the interruption and some must expire; -f subsets incl. filters that let nothing of a connection through; the wall clock may be set back between two refused attempts; non-trivial = at least one fault connection and one frame on the final healthy connection; distinct = distinct scripts",
         level_text: "seeded search over TCP fault sequences with simulated retry pauses; oracle: reader never returns or panics, healthy connection is read to its end and its frames are applied, retry pause after a refused attempt is 3..8 s, rows heard within delete_after survive every interruption unchanged, partial last lines that are not frames change nothing",
     }
 }
@@ -48,7 +48,7 @@ fn gen(rng: &mut Rng, _idx: u64, _tier: Tier) -> Case {
     let mut conns: Vec<Conn> = vec![];
     let chunk = |rng: &mut Rng| *rng.pick(&[Chunking::Line, Chunking::Line, Chunking::Pieces, Chunking::Multi]);
     // leading refusals
-    while rng.chance(0.2) { conns.push(Conn::Refuse { kind: "ConnectionRefused".into() }); }
+    while rng.chance(0.2) { conns.push(Conn::Refuse { kind: "ConnectionRefused".into(), dt_us: 0 }); }
     // first connection: learn some aircraft (not the last one: it only appears after the faults)
     let n0 = rng.range(1, 25) as usize;
     let mut t0 = gen::traffic(rng, &mut acs[..n_ac], n0, d, kinds, false, true, 4_000_000);
@@ -61,7 +61,7 @@ fn gen(rng: &mut Rng, _idx: u64, _tier: Tier) -> Case {
     let n_faults = if rng.chance(0.1) { rng.range(8, 12) } else { rng.range(0, 5) };
     for _ in 0..n_faults {
         match rng.below(6) {
-            0 | 1 => conns.push(Conn::Refuse { kind: rng.pick(&["ConnectionRefused", "ConnectionRefused", "TimedOut", "HostUnreachable", "NetworkUnreachable", "AddrNotAvailable", "PermissionDenied", "Interrupted", "WouldBlock", "ConnectionReset", "ConnectionAborted", "NotConnected", "InvalidInput", "Other", "NotFound", "AddrInUse", "BrokenPipe", "UnexpectedEof", "LookupFailed", "LookupFailed"]).to_string() }),
+            0 | 1 => conns.push(Conn::Refuse { kind: rng.pick(&["ConnectionRefused", "ConnectionRefused", "TimedOut", "HostUnreachable", "NetworkUnreachable", "AddrNotAvailable", "PermissionDenied", "Interrupted", "WouldBlock", "ConnectionReset", "ConnectionAborted", "NotConnected", "InvalidInput", "Other", "NotFound", "AddrInUse", "BrokenPipe", "UnexpectedEof", "LookupFailed", "LookupFailed"]).to_string(), dt_us: 0 }),
             2 => conns.push(Conn::Accept { ops: vec![Op::Eof { dt_us: rng.range(0, 2_000_000) }] }),
             3 => {
                 // accept + frames + close
@@ -106,7 +106,16 @@ fn gen(rng: &mut Rng, _idx: u64, _tier: Tier) -> Case {
     // now and then the feed stays down for a long time: a streak of failed attempts (a growing, shrinking or
     // exhausted retry budget shows only here)
     if rng.chance(0.06) {
-        for _ in 0..rng.range(15, 70) { conns.push(Conn::Refuse { kind: rng.pick(&["ConnectionRefused", "TimedOut", "HostUnreachable"]).to_string() }); }
+        for _ in 0..rng.range(15, 70) { conns.push(Conn::Refuse { kind: rng.pick(&["ConnectionRefused", "TimedOut", "HostUnreachable"]).to_string(), dt_us: 0 }); }
+    }
+    // the wall clock may be set back while the feed is down (between two refused attempts)
+    if rng.chance(0.08) {
+        let refused: Vec<usize> = conns.iter().enumerate().filter(|(i, c)| *i > 0 && matches!(c, Conn::Refuse { .. }) && matches!(conns[*i - 1], Conn::Refuse { .. })).map(|(i, _)| i).collect();
+        if !refused.is_empty() {
+            let at = *rng.pick(&refused);
+            let back = if rng.chance(0.3) { rng.range(1, 999_999) } else { rng.range(1_000_000, 40_000_000) };
+            if let Conn::Refuse { dt_us, .. } = &mut conns[at] { *dt_us = -back; }
+        }
     }
     // healthy connection with fresh traffic from everybody, incl. an aircraft never heard before
     let n1 = rng.range(1, 30) as usize;
@@ -164,8 +173,10 @@ fn check(case: &Case, st: &mut Stats) -> Vec<Violation> {
         }
     }
     // pacing after refused attempts
-    let connects: Vec<(i64, Option<bool>)> = h.seam.iter().filter_map(|e| match e { SeamEv::Connect { t_us, ok, .. } => Some((*t_us, Some(*ok))), SeamEv::ConnectEnd { t_us } => Some((*t_us, None)), _ => None }).collect();
+    let connects: Vec<(i64, Option<bool>, usize)> = h.seam.iter().filter_map(|e| match e { SeamEv::Connect { t_us, ok, conn } => Some((*t_us, Some(*ok), *conn)), SeamEv::ConnectEnd { t_us } => Some((*t_us, None, usize::MAX)), _ => None }).collect();
     for w in connects.windows(2) {
+        // an attempt at which the wall clock was moved says nothing about the pause before it
+        if let Some(Conn::Refuse { dt_us, .. }) = case.script.conns.get(w[1].2) { if *dt_us != 0 { st.probe("clock_set_back_during_outage"); continue; } }
         if w[0].1 == Some(false) {
             st.oracle_evals += 1;
             let gap = w[1].0 - w[0].0;
